@@ -166,7 +166,9 @@ pub fn resolve_data_element(
     }
 
     
-    if Some(&prev_encoding) != maybe_encoding.as_ref()
+    if !maybe_encoding
+        .as_ref()
+        .map_or(false, |e| prev_encoding.is_identical(e))
     {
         // On the final iteration, unstable guesses become errors
         if ctx.is_last_iteration
